@@ -394,6 +394,11 @@ theorem rstep_reach (cfg : RCfg) (s : RSt) (a : RAct) (h : RReach s) : RReach (r
       exact (List.mem_erase_of_ne hne).mpr (h u hu)
     · exact h
   | use t => simp only [rstep]; split <;> exact h
+  | discard =>
+    simp only [rstep]
+    split
+    · exact h
+    · split <;> exact h
 
 theorem rrun_reach (cfg : RCfg) : ∀ (acts : List RAct) (s : RSt), RReach s → RReach (rrun cfg acts s) := by
   intro acts
@@ -401,8 +406,8 @@ theorem rrun_reach (cfg : RCfg) : ∀ (acts : List RAct) (s : RSt), RReach s →
   | nil => intro s h; exact h
   | cons a acts ih => intro s h; exact ih _ (rstep_reach cfg s a h)
 
-theorem rstep_inv (cfg : RCfg) (hc : cfg.increfBeforeSend = true) (hk : cfg.recvKnownDecref = true) (s : RSt) (a : RAct) (h : RInv s)
-    (hre : RReach s) : RInv (rstep cfg s a) := by
+theorem rstep_inv (cfg : RCfg) (hc : cfg.increfBeforeSend = true) (hk : cfg.recvKnownDecref = true) (hd : cfg.deinitDecref = true)
+    (s : RSt) (a : RAct) (h : RInv s) (hre : RReach s) : RInv (rstep cfg s a) := by
   obtain ⟨h1, h2, h3⟩ := h
   cases hf : s.freed with
   | true =>
@@ -434,6 +439,19 @@ theorem rstep_inv (cfg : RCfg) (hc : cfg.increfBeforeSend = true) (hk : cfg.recv
       split
       · simp [RInv, hf, h3, hr]
       · exact ⟨h1, h2, h3⟩
+    | discard =>
+      simp only [rstep, hd, if_true]
+      split
+      · exact ⟨h1, h2, h3⟩
+      · rename_i htr
+        simp only [RInv, hf, Bool.false_or, h3, and_true]
+        constructor
+        · intro _; rw [hr]; omega
+        · intro hfr
+          have hz : s.refcount - 1 = 0 := by
+            simp only [Bool.and_eq_true, beq_iff_eq] at hfr; exact hfr.2
+          have hl : s.holds.length = 0 := by omega
+          exact ⟨List.eq_nil_of_length_eq_zero hl, by omega⟩
     | sweep t =>
       simp only [rstep]
       split
@@ -450,24 +468,24 @@ theorem rstep_inv (cfg : RCfg) (hc : cfg.increfBeforeSend = true) (hk : cfg.recv
           exact ⟨List.eq_nil_of_length_eq_zero hz, by omega⟩
       · exact ⟨h1, h2, h3⟩
 
-theorem rrun_inv (cfg : RCfg) (hc : cfg.increfBeforeSend = true) (hk : cfg.recvKnownDecref = true) :
+theorem rrun_inv (cfg : RCfg) (hc : cfg.increfBeforeSend = true) (hk : cfg.recvKnownDecref = true) (hd : cfg.deinitDecref = true) :
     ∀ (acts : List RAct) (s : RSt), RInv s → RReach s → RInv (rrun cfg acts s) := by
   intro acts
   induction acts with
   | nil => intro s h _; exact h
-  | cons a acts ih => intro s h hre; exact ih _ (rstep_inv cfg hc hk s a h hre) (rstep_reach cfg s a hre)
+  | cons a acts ih => intro s h hre; exact ih _ (rstep_inv cfg hc hk hd s a h hre) (rstep_reach cfg s a hre)
 
 theorem rreach_init : RReach {} := by intro t ht; simp at ht; simp [ht]
 
 /-- ★ no free while any thread can reach the object: with the reference taken before sending, at every point of every
-    interleaving of send / receive / drop / sweep steps of any number of threads, the count equals the number of holders
+    interleaving of send / receive / drop / sweep / carrier-finalizer (`discard`) steps of any number of threads, the count equals the number of holders
     (threads with a table entry + copies in transit); the object is freed only when there is none; nobody uses it after. -/
 theorem refcount_ge_reachers (cfg : RCfg) (hc : cfg.increfBeforeSend = true) (hk : cfg.recvKnownDecref = true)
-    (acts : List RAct) :
+    (hd : cfg.deinitDecref = true) (acts : List RAct) :
     let s := rrun cfg acts {}
     (s.freed = false → s.refcount = s.holds.length + s.transit) ∧ (s.freed = true → s.holds = [] ∧ s.transit = 0) ∧
       s.useAfterFree = false :=
-  rrun_inv cfg hc hk acts {} (by simp [RInv]) rreach_init
+  rrun_inv cfg hc hk hd acts {} (by simp [RInv]) rreach_init
 
 /-! #### locks (`ev/lock`, `ev/rwlock`) and channels: valid while reachable, released after the last drop
 
@@ -480,10 +498,10 @@ theorem refcount_ge_reachers (cfg : RCfg) (hc : cfg.increfBeforeSend = true) (hk
     references the object, or a copy of the pointer is inside a message in transit, the object has not been freed - and no
     lock / unlock / channel operation ever touched freed memory -/
 theorem shared_valid_while_reachable (cfg : RCfg) (hc : cfg.increfBeforeSend = true) (hk : cfg.recvKnownDecref = true)
-    (acts : List RAct) :
+    (hd : cfg.deinitDecref = true) (acts : List RAct) :
     let s := rrun cfg acts {}
     (∀ t, s.reach t = true → s.freed = false) ∧ (0 < s.transit → s.freed = false) ∧ s.useAfterFree = false := by
-  have h := rrun_inv cfg hc hk acts {} (by simp [RInv]) rreach_init
+  have h := rrun_inv cfg hc hk hd acts {} (by simp [RInv]) rreach_init
   have hr := rrun_reach cfg acts {} rreach_init
   refine ⟨fun t ht => ?_, fun htr => ?_, h.2.2⟩
   · cases hf : (rrun cfg acts {}).freed with
@@ -530,12 +548,12 @@ theorem shared_released_after_all_dropped (cfg : RCfg) : ∀ (l : List Nat) (s :
 /-- if the marshaller did not take the reference before sending, a lock dies in transit and the receiving thread locks freed
     memory: thread 0 sends the lock, drops it and collects; thread 1 receives the pointer and acquires -/
 theorem lock_use_counterexample :
-    let s := rrun ⟨false, true⟩ [.send 0, .drop 0, .sweep 0, .recv 1, .use 1] {}
+    let s := rrun { increfBeforeSend := false, recvKnownDecref := true } [.send 0, .drop 0, .sweep 0, .recv 1, .use 1] {}
     s.freed = true ∧ s.reach 1 = true ∧ s.useAfterFree = true := by
   decide
 
-example : (rrun ⟨true, true⟩ [.send 0, .recv 1, .use 1, .use 0, .drop 0, .sweep 0, .use 1, .drop 1, .sweep 1] {}).freed = true ∧
-    (rrun ⟨true, true⟩ [.send 0, .recv 1, .use 1, .use 0, .drop 0, .sweep 0, .use 1, .drop 1, .sweep 1] {}).useAfterFree = false := by decide
+example : (rrun { increfBeforeSend := true, recvKnownDecref := true } [.send 0, .recv 1, .use 1, .use 0, .drop 0, .sweep 0, .use 1, .drop 1, .sweep 1] {}).freed = true ∧
+    (rrun { increfBeforeSend := true, recvKnownDecref := true } [.send 0, .recv 1, .use 1, .use 0, .drop 0, .sweep 0, .use 1, .drop 1, .sweep 1] {}).useAfterFree = false := by decide
 
 /-- ... and it IS freed by the sweep of the last holder once that thread no longer references it. -/
 theorem refcount_freed_after_last_drop (cfg : RCfg) (s : RSt) (t : Nat) (h : RInv s) (hf : s.freed = false)
@@ -547,7 +565,7 @@ theorem refcount_freed_after_last_drop (cfg : RCfg) (s : RSt) (t : Nat) (h : RIn
 /-- without the incref before sending ("death in transit"): thread 0 sends, drops its reference and collects: the object is
     freed while a copy of the pointer is still inside a message. -/
 theorem refcount_counterexample :
-    let s := rrun ⟨false, true⟩ [.send 0, .drop 0, .sweep 0] {}
+    let s := rrun { increfBeforeSend := false, recvKnownDecref := true } [.send 0, .drop 0, .sweep 0] {}
     s.freed = true ∧ s.transit = 1 := by
   decide
 
@@ -555,11 +573,118 @@ theorem refcount_counterexample :
     "known?" test looks at the entry's value, which is `false` between mark phases): thread 0 sends the object to itself,
     drops it and collects - nobody holds it, nothing is in transit, and it is never freed. -/
 theorem refcount_leak_counterexample :
-    let s := rrun ⟨true, false⟩ [.send 0, .recv 0, .drop 0, .sweep 0] {}
+    let s := rrun { increfBeforeSend := true, recvKnownDecref := false } [.send 0, .recv 0, .drop 0, .sweep 0] {}
     s.freed = false ∧ s.holds = [] ∧ s.transit = 0 ∧ s.refcount = 1 := by
   decide
 
-example : (rrun ⟨true, true⟩ [.send 0, .drop 0, .sweep 0, .recv 1, .drop 1, .sweep 1] {}).freed = true := by decide
-example : (rrun ⟨true, true⟩ [.send 0, .drop 0, .sweep 0, .recv 1] {}).freed = false := by decide
+example : (rrun { increfBeforeSend := true, recvKnownDecref := true } [.send 0, .drop 0, .sweep 0, .recv 1, .drop 1, .sweep 1] {}).freed = true := by decide
+example : (rrun { increfBeforeSend := true, recvKnownDecref := true } [.send 0, .drop 0, .sweep 0, .recv 1] {}).freed = false := by decide
+
+/-! #### undelivered messages: the finalizer of the carrying channel (`janet_chan_deinit`, `RAct.discard`) -/
+
+/-- an object that has not been freed is referenced by somebody: the count is positive -/
+def RLive (s : RSt) : Prop := s.freed = false → 0 < s.refcount
+
+theorem rstep_live (cfg : RCfg) (hc : cfg.increfBeforeSend = true) (hk : cfg.recvKnownDecref = true) (hd : cfg.deinitDecref = true)
+    (hz : cfg.decrefFreesAtZero = true) (s : RSt) (a : RAct) (h : RInv s) (hl : RLive s) : RLive (rstep cfg s a) := by
+  cases hf : s.freed with
+  | true =>
+    obtain ⟨hh, ht⟩ := h.2.1 hf
+    intro hnf
+    cases a <;> simp [rstep, hh, ht, hf] at hnf
+    · rename_i t; split at hnf <;> simp [hf] at hnf
+  | false =>
+    have hr := h.1 hf
+    have hp := hl hf
+    cases a with
+    | send t =>
+      simp only [rstep, hc, if_true]
+      split
+      · intro _; show 0 < s.refcount + 1; omega
+      · exact hl
+    | recv t =>
+      simp only [rstep, hk, if_true]
+      split
+      · exact hl
+      · split
+        · rename_i hm
+          have : 0 < s.holds.length := List.length_pos_of_mem hm
+          intro _; show 0 < s.refcount - 1; omega
+        · intro _; exact hp
+    | drop t => intro _; exact hp
+    | use t =>
+      simp only [rstep]
+      split
+      · intro _; exact hp
+      · exact hl
+    | discard =>
+      simp only [rstep, hd, hz, if_true, Bool.true_and]
+      split
+      · exact hl
+      · intro hnf
+        have hne : ¬ (s.refcount - 1 = 0) := by
+          intro e; simp [hf, e] at hnf
+        show 0 < s.refcount - 1; omega
+    | sweep t =>
+      simp only [rstep]
+      split
+      · intro hnf
+        have hne : ¬ (s.refcount - 1 = 0) := by
+          intro e; simp [hf, e] at hnf
+        show 0 < s.refcount - 1; omega
+      · exact hl
+
+theorem rrun_inv_live (cfg : RCfg) (hc : cfg.increfBeforeSend = true) (hk : cfg.recvKnownDecref = true) (hd : cfg.deinitDecref = true)
+    (hz : cfg.decrefFreesAtZero = true) :
+    ∀ (acts : List RAct) (s : RSt), RInv s → RReach s → RLive s → RInv (rrun cfg acts s) ∧ RLive (rrun cfg acts s) := by
+  intro acts
+  induction acts with
+  | nil => intro s h _ hl; exact ⟨h, hl⟩
+  | cons a acts ih =>
+    intro s h hre hl
+    exact ih _ (rstep_inv cfg hc hk hd s a h hre) (rstep_reach cfg s a hre) (rstep_live cfg hc hk hd hz s a h hl)
+
+/-- ★ ... and are released after the last reference is dropped, whichever step drops it: at EVERY point of EVERY interleaving
+    of send / receive / use / drop / sweep steps and finalizer runs of carrying channels with undelivered messages, an
+    object that no thread's table lists and that no message in transit contains HAS been freed - the step that removed the
+    last reference (a collector's sweep, or the clean-up unmarshal of an undelivered message) finalized it.  No object is
+    ever stranded with a zero count.  (Needs all four facts of the current source; see the two counterexamples.) -/
+theorem shared_never_stranded (cfg : RCfg) (hc : cfg.increfBeforeSend = true) (hk : cfg.recvKnownDecref = true)
+    (hd : cfg.deinitDecref = true) (hz : cfg.decrefFreesAtZero = true) (acts : List RAct) :
+    let s := rrun cfg acts {}
+    s.holds = [] → s.transit = 0 → s.freed = true := by
+  intro s hh ht
+  have h := rrun_inv_live cfg hc hk hd hz acts {} (by simp [RInv]) rreach_init (by simp [RLive])
+  cases hf : s.freed with
+  | true => rfl
+  | false =>
+    have h1 := h.1.1 hf
+    have h2 := h.2 hf
+    rw [hh, ht] at h1
+    simp at h1
+    omega
+
+/-- the clean-up unmarshal decrements WITHOUT finalizing at zero (repo e480e68 and before): thread 0 puts the object into a
+    message nobody takes, drops it and collects; then the carrying channel is collected: count 0, in no table, in no
+    message - and not freed.  Replayed on the implementation: corpus/C08/undelivered_shared_released.janet. -/
+theorem stranded_counterexample :
+    let s := rrun { increfBeforeSend := true, recvKnownDecref := true, deinitDecref := true, decrefFreesAtZero := false }
+      [.send 0, .drop 0, .sweep 0, .discard] {}
+    s.freed = false ∧ s.holds = [] ∧ s.transit = 0 ∧ s.refcount = 0 := by
+  decide
+
+/-- the finalizer of the carrying channel frees the packed buffers without the DECREF unmarshal: the in-transit reference is
+    never given back - after the last holder dropped the object and collected, the count is still 1: never released -/
+theorem deinit_leak_counterexample :
+    let s := rrun { increfBeforeSend := true, recvKnownDecref := true, deinitDecref := false, decrefFreesAtZero := true }
+      [.send 0, .discard, .drop 0, .sweep 0] {}
+    s.freed = false ∧ s.holds = [] ∧ s.transit = 0 ∧ s.refcount = 1 := by
+  decide
+
+-- non-vacuity: both orders of "holder goes away" / "carrier is finalized" end with the object freed, never used after
+example : (rrun { increfBeforeSend := true, recvKnownDecref := true } [.send 0, .drop 0, .sweep 0, .discard] {}).freed = true := by decide
+example : (rrun { increfBeforeSend := true, recvKnownDecref := true } [.send 0, .discard, .use 0, .drop 0, .sweep 0] {}).freed = true ∧
+    (rrun { increfBeforeSend := true, recvKnownDecref := true } [.send 0, .discard, .use 0, .drop 0, .sweep 0] {}).useAfterFree = false := by decide
+example : (rrun { increfBeforeSend := true, recvKnownDecref := true } [.send 0, .send 0, .recv 1, .discard, .drop 0, .sweep 0] {}).freed = false := by decide
 
 end JanetModel.Props.C08
